@@ -50,6 +50,28 @@ Theorem C09_staged_object_stays_wellformed : ∀ o i, StagedWF i → StagedWF (s
 Proof. exact sapply_wf. Qed.
 Print Assumptions C09_staged_object_stays_wellformed.
 
+(** reset of several paths: whether or not it reports a failure, the result is the fold of the single-path
+    resets over ALL named paths - a path that cannot be restored is skipped (C09_failing_source..., or for
+    SResetPrev: [sapply] leaves it absent), the others are restored (C09_reset_restores_previous_entry) - and the
+    staged object stays well formed, hence readable and committable (fix 9f7da71: before it the call stopped at the
+    first blocked path without re-staging the inventory) *)
+Theorem C09_reset_applies_all_named_paths : ∀ paths recursive order i,
+  let hps := remove_dups (concat (map (fun g => resolve_glob (i_hstate i) g recursive) paths)) in
+  let pps := match last (i_prev i) with
+             | Some pst => remove_dups (concat (map (fun g => resolve_glob pst g recursive) paths))
+             | None => []
+             end in
+  let adds := filter (fun p => negb (bool_decide (p ∈ pps))) hps in
+  fst (reset_apply paths recursive order i) =
+  foldl (fun a o => sapply o a) i (map SRemove adds ++ map SResetPrev (order pps)).
+Proof. exact reset_apply_result. Qed.
+Print Assumptions C09_reset_applies_all_named_paths.
+
+Theorem C09_reset_leaves_object_wellformed : ∀ paths recursive order i,
+  StagedWF i → StagedWF (fst (reset_apply paths recursive order i)).
+Proof. exact reset_apply_wf. Qed.
+Print Assumptions C09_reset_leaves_object_wellformed.
+
 Example C09_nonvacuous :
   let i := sapply (SAdd 7 [["x"%char]]) new_inventory in
   i_hstate (sapply (SMoveInt [["x"%char]] [["y"%char]]) i) !! [["y"%char]] = Some 7%N ∧
